@@ -460,7 +460,7 @@ def z3defs(polys):
     return out
 
 
-def solve(constraints, want_model=False, timeout_ms=20000):
+def solve(constraints, want_model=False, timeout_ms=60000):
     """constraints: polys that must all be 1 (already normalised or not). Returns
     ('unsat',None) | ('sat', env|None). Uses enumeration for small support, else z3."""
     cons = [c for c in constraints if c != ONE]
